@@ -237,6 +237,14 @@ fn run_world_inner<T>(
             break;
         }
         if !enabled.iter().any(|a| matches!(a, Action::Poll(_))) && !enabled.iter().any(|a| matches!(a, Action::Deliver(..))) {
+            {
+                // rushing adversary: nothing else can happen, so the held messages go out as they are
+                let mut net = world.net.lock().unwrap();
+                if net.has_held() && !net.release_all {
+                    net.release_all = true;
+                    continue;
+                }
+            }
             if !final_sweep_done {
                 // robustness: re-poll every unfinished task once before declaring a stall
                 for p in &unfinished {
